@@ -252,3 +252,18 @@ package fasthttp
 //@     nohavoc
 //@     requires[visible-only-after-the-mtime-is-set] stamped
 //@   end
+
+// SetFileToCache (C25): finding (or storing) the cache entry and registering as one of its readers is one critical
+// section. Split in two, the entry sits in the cache with no reader in between, and the cleaner or CleanStop may
+// release it under the request that is about to read it.
+//@ func inMemoryCacheManager.SetFileToCache results r
+//@   property C25
+//@   mode skeleton
+//@   ghost locks_cacheLock int = 0
+//@   ghost released int = 0
+//@   on call fsFile.Release:
+//@     requires[duplicate-released-outside-the-lock] !held(cm.cacheLock)
+//@     effect released = released + 1
+//@   end
+//@   ensures[lookup-and-reader-registration-are-one-critical-section] locks_cacheLock == 1
+//@   ensures[at-most-the-duplicate-is-released] released <= 1
